@@ -512,6 +512,9 @@ package lnwire
 //@   props C10
 //@   loop * havoc
 //@   bounds-safe
+//@   site call ReadFull nth 0: assert arg(0) == r && arg(1) == sliceof(ip)
+//@   site call ReadFull nth 1: assert arg(0) == r && arg(1) == sliceof(p)
+//@   ensures !called(Read)
 //@
 //@ func (f *FailIncorrectDetails) Decode
 //@   props C10
@@ -735,12 +738,22 @@ package lnwire
 //@   loop * havoc
 //@   bounds-safe
 //@   site store TCPAddr.IP as each-address-owns-its-bytes: assert iterfresh(value)
+//@   // every fixed-size field is read completely or the record is refused (finding F37): io.ReadFull, never a bare Read
+//@   site call ReadFull nth 0: assert arg(0) == r && arg(1) == sliceof(ip)
+//@   site call ReadFull nth 1: assert arg(0) == r && arg(1) == sliceof(port)
+//@   site store TCPAddr.IP as whole-field-read: assert retn(ReadFull, 1, 0) == nil && retn(ReadFull, 1, 1) == nil
+//@   ensures !called(Read)
 //@
 //@ func ipv6AddrsDecoder
 //@   props C10
 //@   loop * havoc
 //@   bounds-safe
 //@   site store TCPAddr.IP as each-address-owns-its-bytes: assert iterfresh(value)
+//@   // every fixed-size field is read completely or the record is refused (finding F37): io.ReadFull, never a bare Read
+//@   site call ReadFull nth 0: assert arg(0) == r && arg(1) == sliceof(ip)
+//@   site call ReadFull nth 1: assert arg(0) == r && arg(1) == sliceof(port)
+//@   site store TCPAddr.IP as whole-field-read: assert retn(ReadFull, 1, 0) == nil && retn(ReadFull, 1, 1) == nil
+//@   ensures !called(Read)
 //@
 //@ // ---- messages that keep their TLV extension in an ExtraOpaqueData field rebuild it, on every Encode, from the records they know.
 //@ // ---- Records they do NOT know ("it's ok to be odd") have to be carried over: the records already in the field are parsed and merged
